@@ -151,6 +151,24 @@ class Check:
         return 0
 
 
+def library_raised(exc):
+    """True iff the exception was raised below a lightworks frame (the code under test), False if it comes from the harness itself"""
+    import traceback
+    frames = traceback.extract_tb(exc.__traceback__)
+    last_harness = max((i for i, f in enumerate(frames) if "/verif/harness/" in f.filename), default=-1)
+    return any("/lightworks/" in f.filename for f in frames[last_harness + 1:])
+
+
+def guard(fn, *a, **kw):
+    """run fn; an exception from the library becomes ('raised', message), one from the harness propagates"""
+    try:
+        return ("ok", fn(*a, **kw))
+    except Exception as e:  # noqa: BLE001
+        if library_raised(e):
+            return ("raised", "%s: %s" % (type(e).__name__, e))
+        raise
+
+
 def _sig_match(pattern, sig):
     return all(sig.get(k) == v for k, v in pattern.items())
 
